@@ -3,6 +3,8 @@ package props
 import (
 	"fmt"
 	"testing"
+
+	"pgregory.net/rapid"
 )
 
 /* C05 - structural and parametric mutations change exactly what they document */
@@ -306,8 +308,57 @@ func CheckC05(c HistoryCase, rec *Rec) error {
 	return runHistory(c, historyChecks{c05: true}, rec)
 }
 
+/* one structural mutation on a large genome in which few genes are eligible for a split (most genes disabled or leaving a
+   bias node): the uniform-draw branch of add-node (15 genes or more) runs out of tries */
+
+type C05Direct struct {
+	G  GenomeSpec `json:"genome"`
+	Op OpSpec     `json:"op"`
+}
+
+func GenC05Direct() *rapid.Generator[C05Direct] {
+	gg := genGenomeSpec(GenomeCfg{MinGenes: 15, MaxGenes: 40, MaxHidden: 8, ModestWeight: true, EnabledOf10: 1})
+	return rapid.Custom(func(t *rapid.T) C05Direct {
+		return C05Direct{G: gg.Draw(t, "genome"), Op: drawOp(t, []string{opAddNode, opAddNode, opAddNode, opAddLink, opToggle, opReEnable})}
+	})
+}
+
+func CheckC05Direct(c C05Direct, rec *Rec) error {
+	g := c.G.Build()
+	opts := defaultOpts().Build()
+	pop := populationFor(c.G)
+	before := Snapshot(g)
+	seedLibrary(c.Op.Seed)
+	ok, err := applyMutator(g, c.Op, pop, opts)
+	if err != nil {
+		return fmt.Errorf("%s returned error %v", c.Op.Kind, err)
+	}
+	after := Snapshot(g)
+	enabled := 0
+	for _, gn := range before.Genes {
+		if gn.En {
+			enabled++
+		}
+	}
+	rec.Class(fmt.Sprintf("op:%s result:%v", c.Op.Kind, ok))
+	if len(before.Genes) >= 15 && enabled*5 <= len(before.Genes) {
+		rec.Class("15 genes or more, at most a fifth enabled")
+	}
+	if err := checkMutation(before, after, c.Op, ok, false, rec); err != nil {
+		return fmt.Errorf("%s (result %v): %v\nbefore %s\nafter  %s", c.Op.Kind, ok, err, jsonStr(before), jsonStr(after))
+	}
+	return nil
+}
+
+func TestC05Direct(t *testing.T) {
+	runProp(t, "C05", "direct", 1500, 30000, GenC05Direct(), CheckC05Direct)
+}
+
 func TestC05(t *testing.T) {
 	runProp(t, "C05", "history", 1500, 30000, genHistory(pick(50, 120)), CheckC05)
 }
 
-func init() { registerReplay("C05", "history", CheckC05) }
+func init() {
+	registerReplay("C05", "history", CheckC05)
+	registerReplay("C05", "direct", CheckC05Direct)
+}
